@@ -95,6 +95,9 @@ def h_roundtrip(ctx):
     kform = ctx.choose("key_form", ["key", "set", "callable", "set1"])
     hdr_kind = ctx.choose("header", ["plain", "typ-explicit", "typ-JWT", "extra-members"])
     what_claims = ctx.choose("claims_kind", ["json", "datetime"])
+    # an application registry is usually a subclass; an application encoder usually knows a few extra types and nothing about dates
+    reg_kind = ctx.choose("registry", ["allow-list", "registry-instance", "registry-subclass"])
+    enc_kind = ctx.choose("encoder_cls", ["default", "application-encoder"]) if what_claims == "datetime" else "default"
     if what_claims == "json":
         claims = copy.deepcopy(ctx.choose("claims", claim_sets()))
         expected = [json.loads(json.dumps(claims))]
@@ -117,17 +120,33 @@ def h_roundtrip(ctx):
         header["kid"] = None  # placeholder, replaced below when a set is used
         header.pop("kid")
     given_header = copy.deepcopy(header)
-    reg = jwe.JWERegistry(algorithms=[alg, enc]) if family == "jwe" else None
+    from joserfc import jws as _jws
+    base_cls = jwe.JWERegistry if family == "jwe" else _jws.JWSRegistry
+
+    class ApplicationRegistry(base_cls):
+        """what an application that wants its own defaults writes"""
+    if family == "jwe" or reg_kind != "allow-list":
+        reg = (ApplicationRegistry if reg_kind == "registry-subclass" else base_cls)(algorithms=[alg, enc] if family == "jwe" else [alg])
+    else:
+        reg = None
     ekey, kid = keys_for(kind, kform, private=(family == "jws"))
     kw = {"registry": reg} if reg else {"algorithms": [alg]}
+    ekw = dict(kw)
+    if enc_kind != "default":
+        class ApplicationEncoder(json.JSONEncoder):
+            def default(self, o):
+                if isinstance(o, (set, frozenset)):
+                    return sorted(o)
+                return super().default(o)
+        ekw["encoder_cls"] = ApplicationEncoder
     from .c14 import seam
     seam.install()   # the pick from a key set takes the first candidate
     try:
-        r = call(jwt.encode, header, claims, ekey, **kw)
+        r = call(jwt.encode, header, claims, ekey, **ekw)
     finally:
         seam.uninstall()
     vs = []
-    what = f"{family}/{alg} key as {kform}, header {hdr_kind}, claims {str(claims)[:120]}"
+    what = f"{family}/{alg} key as {kform}, header {hdr_kind}, registry given as {reg_kind}, encoder {enc_kind}, claims {str(claims)[:120]}"
     tag = f"{family} {alg.split('+')[0]} key-as-{kform}"
     if not r.ok:
         return Outcome("encode-failed", [viol(f"jwt.encode fails: {tag}", f"{what}: {r.exc!r}")], nontrivial=(tag, hdr_kind, repr(claims)[:80]))
@@ -152,7 +171,7 @@ def h_roundtrip(ctx):
                 got_hdr.pop(gen, None)
         if got_hdr != want_hdr:
             vs.append(viol(f"decoded header differs from the given one plus typ ({hdr_kind}, {family})", f"{what}: want {want_hdr} got {got_hdr}"))
-    return Outcome(f"{family}:{what_claims}:{'ok' if not vs else 'bad'}", vs, nontrivial=(tag, hdr_kind, what_claims, repr(claims)[:100]))
+    return Outcome(f"{family}:{what_claims}:{'ok' if not vs else 'bad'}", vs, nontrivial=(tag, hdr_kind, what_claims, repr(claims)[:100], reg_kind, enc_kind))
 
 
 def _leaves(x):
